@@ -266,6 +266,10 @@ func isUnsignedBV(t types.Type) bool {
 	switch b.Kind() {
 	case types.Uint, types.Uint64, types.Uint32, types.Uint16, types.Uintptr:
 		return true
+	case types.Uint8:
+		// a *named* 8-bit unsigned type is a flag set (PlanMode, ...): bit-vector; plain bytes stay Int
+		_, named := t.(*types.Named)
+		return named
 	}
 	return false
 }
